@@ -2,7 +2,7 @@
    This file contains only statements closed by [exact <lemma>] and their assumptions. *)
 From Coq Require Import ZArith Reals List.
 From Coquelicot Require Import Coquelicot.
-From FF Require Import Base.Ops Inst.RInst Base.RAlg Model.Numeric Model.Consts Model.Tie.C01 Proofs.Foi.
+From FF Require Import Base.Ops Inst.RInst Base.RAlg Model.Numeric Model.Consts Model.Tie.C01 Proofs.Foi Proofs.CMBase Proofs.CMIntegral.
 Local Open Scope R_scope.
 
 (* Segment integral, masked branch: the model value is the integral of e^{i x t} over [0, dt]. *)
@@ -27,3 +27,101 @@ Print Assumptions C01_foi_taylor_bound.
 Theorem C01_masked_div_safe : forall thr x dt, 0 <= thr -> thr < Rabs (x * dt) -> x <> 0.
 Proof. exact masked_div_safe. Qed.
 Print Assumptions C01_masked_div_safe.
+
+(* ------------------------------------------------------------------------------------------------
+   Headline: the control matrix equals the defining time-ordered integral.
+   Vocabulary (Proofs/CMBase.v, Proofs/CMIntegral.v):
+     is_CInt f a b I        real and imaginary part of I are the Riemann integrals of those of f over [a,b]
+     Useg d ev V Q tau      V e^{-i diag(ev) tau} V^dagger Q : propagator tau after the start of a segment
+     seg_integrand .. t     e^{iwt} s tr( U(t - tg)^dagger N U(t - tg) C )
+     pulse_segs .. j        the segments (ev_g, V_g, dt_g, s_j^g) of the pulse for noise operator j
+     pulse_U / pulse_s      propagator / sensitivity of the whole pulse at time t (piecewise)
+     cm_integrand .. t      e^{iwt} s_j(t) tr( U(t)^dagger N_j U(t) C_k )
+     all_masked d thr w ev dt   no entry of the segment integral is on the Taylor branch
+     step_weight, segs_bound    sum_mn |(V^dagger N V)_mn| |(W^dagger C W)_nm| and its weighted sum over segments
+   ------------------------------------------------------------------------------------------------ *)
+
+(* Integrand expansion: tr(U(tau)^dagger N U(tau) C) = sum_mn (V^dagger N V)_mn (W^dagger C W)_nm e^{i(ev_m - ev_n) tau},
+   W = Q^dagger V; purely algebraic (no unitarity needed). *)
+Theorem C01_integrand_expansion : forall d ev V Q N Cm tau,
+  mtrprod RO d (transform_by_unitary RO d (Useg d ev V Q tau) N) Cm =
+  csumn RO d (fun m => csumn RO d (fun n =>
+    cmul RO (cmul RO (mget RO (transform_by_unitary RO d V N) m n) (cexp RO ((vg RO ev m - vg RO ev n) * tau)))
+            (mget RO (transform_by_unitary RO d (mmul RO d (madj RO d Q) V) Cm) n m))).
+Proof. exact integrand_expansion. Qed.
+Print Assumptions C01_integrand_expansion.
+
+(* One segment, no entry on the Taylor branch: entry [j][k][o] of cm_step IS the integral over the segment. *)
+Theorem C01_segment_integral : forall d thr ev V Q tg dt om bs ns nc j k o,
+  0 <= thr -> (j < length ns)%nat -> (k < length bs)%nat -> (o < length om)%nat ->
+  all_masked d thr (vg RO om o) ev dt ->
+  is_CInt (seg_integrand d ev V Q tg (vg RO om o) (vg RO nc j) (nthm ns j) (nthm bs k)) tg (tg + dt)
+          (a3get RO (cm_step RO d thr ev V Q tg dt om bs ns nc) j k o).
+Proof. exact cm_step_is_integral. Qed.
+Print Assumptions C01_segment_integral.
+
+(* One segment, any frequency: distance to the integral at most |s_j| (thr/2 + thr^2/2) |dt| sum_mn |..||..|. *)
+Theorem C01_segment_integral_bound : forall d thr ev V Q tg dt om bs ns nc j k o,
+  0 <= thr -> (j < length ns)%nat -> (k < length bs)%nat -> (o < length om)%nat ->
+  exists I, is_CInt (seg_integrand d ev V Q tg (vg RO om o) (vg RO nc j) (nthm ns j) (nthm bs k)) tg (tg + dt) I /\
+    Cmod (csub RO (a3get RO (cm_step RO d thr ev V Q tg dt om bs ns nc) j k o) I)
+    <= Rabs (vg RO nc j) * taylor_eps thr * Rabs dt * step_weight d V Q (nthm ns j) (nthm bs k).
+Proof. exact cm_step_integral_bound. Qed.
+Print Assumptions C01_segment_integral_bound.
+
+(* Whole pulse (any number of segments, durations >= 0, propagators as computed by the package from the
+   spectral data): entry [j][k][o] of the control matrix is within segs_bound of
+   int_0^tau e^{iwt} s_j(t) tr(U(t)^dagger N_j U(t) C_k) dt, and EQUAL to it when no segment has an entry on
+   the Taylor branch. *)
+Theorem C01_control_matrix_integral : forall d thr evs Vs dts om bs ns nc j k o,
+  0 <= thr -> (forall g, (g < length dts)%nat -> 0 <= nth g dts 0) ->
+  (j < length ns)%nat -> (k < length bs)%nat -> (o < length om)%nat ->
+  let segs := pulse_segs evs Vs dts nc j in
+  let B := a3get RO (control_matrix_from_scratch RO d thr evs Vs (propagators RO d evs Vs dts) om bs ns nc dts (times RO dts)) j k o in
+  exists I, is_CInt (cm_integrand d segs (mid RO d) 0 (vg RO om o) (nthm ns j) (nthm bs k)) 0 (segs_tau segs) I /\
+            Cmod (csub RO B I) <= segs_bound d thr segs (mid RO d) (nthm ns j) (nthm bs k) /\
+            ((forall g, (g < length dts)%nat -> all_masked d thr (vg RO om o) (nth g evs nil) (nth g dts 0)) -> B = I).
+Proof. exact control_matrix_integral. Qed.
+Print Assumptions C01_control_matrix_integral.
+
+(* the upper limit of the integral is the pulse duration sum(dt) when the lists have equal lengths *)
+Theorem C01_upper_limit : forall evs Vs dts nc j,
+  length evs = length dts -> length Vs = length dts ->
+  segs_tau (pulse_segs evs Vs dts nc j) = sumlist RO dts.
+Proof. exact pulse_segs_tau. Qed.
+
+(* the spectral hypothesis (every V_g unitary) makes U(t) a unitary path starting at the identity *)
+Theorem C01_pulse_U_unitary : forall d segs Q t0 t,
+  List.Forall (fun sg : seg => let '(_, V, _, _) := sg in funitary d (toF V)) segs -> funitary d (toF Q) ->
+  funitary d (toF (pulse_U d segs Q t0 t)).
+Proof. exact pulse_U_unitary. Qed.
+Print Assumptions C01_pulse_U_unitary.
+
+(* the hypothesis "no entry on the Taylor branch" is satisfiable *)
+Example C01_all_masked_satisfiable : all_masked 2 (/ 10000000) (/ 2) (0 :: 1 :: nil) 1.
+Proof. exact all_masked_example. Qed.
+
+(* Filter function F_ab(w) = sum_k conj(B_ak) B_bk: Hermitian and positive semidefinite in (a,b), real
+   non-negative diagonal -- for ANY array B (in particular the control matrix of the model). *)
+Theorem C01_ff_hermitian : forall na nk no Bm a b o, (a < na)%nat -> (b < na)%nat -> (o < no)%nat ->
+  a3get RO (filter_function RO na nk no Bm) a b o = cconj RO (a3get RO (filter_function RO na nk no Bm) b a o).
+Proof. exact ff_hermitian. Qed.
+Print Assumptions C01_ff_hermitian.
+
+Theorem C01_ff_psd : forall na nk no Bm (x : nat -> C (T:=R)) o, (o < no)%nat ->
+  let q := csumn RO na (fun a => csumn RO na (fun b =>
+     cmul RO (cmul RO (cconj RO (x a)) (a3get RO (filter_function RO na nk no Bm) a b o)) (x b))) in
+  0 <= fst q /\ snd q = 0.
+Proof. exact ff_psd. Qed.
+Print Assumptions C01_ff_psd.
+
+Theorem C01_ff_quadratic_form : forall na nk no Bm (x : nat -> C (T:=R)) o, (o < no)%nat ->
+  csumn RO na (fun a => csumn RO na (fun b =>
+     cmul RO (cmul RO (cconj RO (x a)) (a3get RO (filter_function RO na nk no Bm) a b o)) (x b))) =
+  cofr RO (sumn RO nk (fun k => cabs2 RO (csumn RO na (fun a => cmul RO (x a) (a3get RO Bm a k o))))).
+Proof. exact ff_quadratic_form. Qed.
+
+Theorem C01_ff_diag_nonneg : forall na nk no Bm a o, (a < na)%nat -> (o < no)%nat ->
+  a3get RO (filter_function RO na nk no Bm) a a o = cofr RO (sumn RO nk (fun k => cabs2 RO (a3get RO Bm a k o))).
+Proof. exact ff_diag_nonneg. Qed.
+Print Assumptions C01_ff_diag_nonneg.
